@@ -39,6 +39,13 @@ CHECKS = {
         note=BT + " expand_indices is applied to scalar expressions without free indices and renumber_indices to expressions without free indices (it renames them).",
         design_ref="DESIGN.md §3 C10",
     ),
+    "C21": dict(
+        engine="UFLBuild",
+        technique="TLC enumeration of UFLBuild programs ending in the action replace (value = operand evaluated in the paired environment where the mapped terminal has its image's value) + replay through ufl.replace with value/shape/free-index comparison; unmapped expressions must come back unchanged; shape-changing maps must be refused",
+        text="The action replace(e, {src: image}) is specified denotationally: its value in environment E is the value of e in the environment where src takes the value the image has in E (environments are generated in such pairs, so the specification is a table lookup). TLC enumerates expressions (arithmetic, index notation, tensor algebra, conditionals, variables, list tensors) followed by replace for 8 maps (terminal->terminal for scalar/vector/matrix, ->scaled terminal, ->sum, ->product, self-referential f->3f); every program is replayed through ufl.replace and compared; expressions not containing the mapped terminal must be returned unchanged; 90 shape-changing maps must be refused.",
+        note=BT + " Images are terminals and simple combinations of terminals; replacement below derivative and restriction operators is exercised in the derivative/restriction checks.",
+        design_ref="DESIGN.md §3 C21",
+    ),
     "C24": dict(
         engine="UFLBuild",
         technique="TLC enumeration of UFLBuild programs ending in the action point_eval + replay: the real object is called as expr(x, mapping, component) and the returned number compared with the predicted value",
@@ -66,6 +73,20 @@ CHECKS = {
         text="All forms of the bounded universes (<=4 integrals over ids 1, 2, (1,2), everywhere; 2-3 metadata; 1-2 integral types; 1-2 domains; coordinate derivative none/v1/v2; both append options) are enumerated by TLC; the invariants (totals preserved after every step, no cross-metadata merge, nothing lost or duplicated) hold for the injective canonicaliser; every enumerated line and a seeded sample of the product universe is executed on the real code and must equal the prediction and Total; 33 real metadata pairs (ints, floats, strings, nested dicts, arrays incl. >1000 entries and 9th-digit differences) must merge iff equal.",
         note="Trusted: Total/Explicit in Grouping.tla; the projection of integrands to atom bags; metadata deep equality. A TypeError raised when one metadata key holds values of different kinds is a refusal outside C15 (note). Exhaustive for the stated slices; the 4-integral product universe is sampled.",
         design_ref="DESIGN.md §3 C15",
+    ),
+    "C18": dict(
+        engine="Degree",
+        technique="TLC exhaustive enumeration of a bounded term algebra of polynomial integrands in spec/Degree.tla (first-principles per-physical-component degrees; compositional TrueDeg validated inside TLC against brute-force polynomial arithmetic over CQ rationals; SumDegreeEstimator transcribed handler by handler) + replay of every enumerated term on real ufl: real estimate == model estimate and >= the degree of an exact polynomial evaluation of the real DAG, also through compute_form_data metadata",
+        text="For every term of depth <=2 (quick) / <=3 (thorough) over pools with mixed [vecP,P], [RT-like,P] on immersed triangle/interval, nested mixed, N1curl-like, symmetric 2x2, interval/triangle/tetrahedron, coefficients and test/trial arguments, all fixed/free component selections with and without grad: TLC proves Est>=TrueDeg for the intended component walk and produces the underestimate counterexample for the reference-size walk exactly on pools whose physical and reference sizes differ; every term (3.5k quick, 188k thorough) is built on real ufl, its estimate must match the model and be >= the exact degree.",
+        note="Trusted: embedded_superdegree; affine simplex cells; one generic member per space (distinct prime coefficients); polynomial fragment only (no division/abs/conditional/math functions/non-integer exponents). Exhaustive for the stated bounds.",
+        design_ref="DESIGN.md §3 C18",
+    ),
+    "C28": dict(
+        engine="BaseForms",
+        technique="TLC model checking of spec/BaseForms.tla (finite-dimensional tensor semantics of the base-form algebra with typed argument slots, laws checked on the model) + replay of TLC-enumerated/simulated construction programs on real ufl with comparison of arguments, coefficients and the structurally assembled tensor in exact rationals",
+        text="Base forms denote multilinear maps over V=Q^2, W=Q^3 and their duals, defined purely by contraction; TLC checks adjoint involution, distribution of action over sums, scaling, zero laws, associativity and derivative sanity on the model, and enumerates construction programs (forms, cofunctions, coarguments, matrices, weighted sums, action, adjoint, zero, derivative) exhaustively to depth 2 over 28 leaves (depth 3 on sub-alphabets, simulation to depth 5 in thorough). Every program is replayed twice (operator notation and FormSum constructor) through the public API; every node is compared before and after expand_derivatives with the predicted arguments (numbers, spaces, primal/dual), coefficients and the tensor assembled by a structural assembler.",
+        note="Trusted: TLC, CQ.tla, vf/sem.py (pointwise integrand evaluation), the structural assembler in c28.py; real arithmetic only; compositions ufl refuses by design are guards in the spec (raising line cited).",
+        design_ref="DESIGN.md §3 C28",
     ),
     "C19": dict(
         engine="Traversal",
